@@ -109,8 +109,6 @@ def judge_c13(scn, run) -> Tuple[List[tuple], Dict[str, int]]:
                 o["start"], o["days"], o["res"][1], o["res"][2])))
             continue
         got = parse_text(o["res"][1])
-        if o["start"] not in o["res"][1]:
-            v.append(("C13/start-time-missing", "text %r does not show start %s" % (o["res"][1], o["start"])))
         if not days:
             cnt(c, "judged-no-days")
             if got[0] != "today":
